@@ -209,21 +209,16 @@ static int print_i(void (*printchar_handler)(void *d, int c),
 }
 
 #if 1 // OPTION_GET(NUMBER, support_floating)
-#ifdef LONG_DOUBLE
+/* print_f receives a long double and computes in long double: in plain
+ * double the repeated division by the base that peels off the digits of a
+ * large value accumulates several ulps of error (the leading digits of
+ * DBL_MAX came out wrong from the 16th on). */
 #define DOUBLE long double
 #define MODF modfl
 #define LOG10 log10l
 #define FMOD fmodl
 #define POW powl
 #define FABS fabsl
-#else
-#define DOUBLE double
-#define MODF modf
-#define LOG10 log10
-#define FMOD fmod
-#define POW pow
-#define FABS fabs
-#endif
 
 static int print_f(void (*printchar_handler)(void *d, int c),
                    void *printchar_data,
